@@ -612,7 +612,7 @@ def run(ctx):
         tie_meta.append(("graph", nodes, ev, outcome, pops))
 
     # ---------------------------------------------------------------- programs
-    nprog = ctx.n(26, 400)
+    nprog = ctx.n(20, 400)
     progs = [gp.parse_simple(w) for w in WITNESSES]
     while len(progs) < nprog + len(WITNESSES):
         p = gp.gen_program(rng)
@@ -741,10 +741,11 @@ def run(ctx):
     fitems, fmeta = [], []
     allbut = tuple(o for o in OPTS if o != "keep_all")
     for path in files:
-        vecs = [((), "log"), (("keep_all",), "log"), (allbut, "log"), (("propagate_weights",), "normal")]
+        vecs = [((), "log"), (("keep_all",), "log"), (allbut, "log")]
         if ctx.tier == "thorough":
-            vecs += [((o,), "log") for o in OPTS if o != "keep_all"] + [((), "normal"), (tuple(OPTS), "log")]
-        vecs.append((tuple(o for o in OPTS if rng.random() < 0.5), rng.choice(["log", "normal"])))
+            vecs += [((o,), "log") for o in OPTS if o != "keep_all"] + [((), "normal"), (tuple(OPTS), "log"),
+                                                                      (("propagate_weights",), "normal")]
+            vecs.append((tuple(o for o in OPTS if rng.random() < 0.5), rng.choice(["log", "normal"])))
         seen = set()
         for v in vecs:
             if v not in seen:
